@@ -876,6 +876,15 @@ def canon(n, unit=None, names=None):
         return '(%s)%s' % (qtype(n), inner)
     if k == 'ConditionalOperator':
         c, a, b = n['inner'][:3]
+        c0 = strip(c)
+        if c0 is not None and c0.get('kind') == 'BinaryOperator' and c0.get('opcode') in ('<', '<=', '>', '>='):
+            x_, y_ = canon(c0['inner'][0], unit, names), canon(c0['inner'][1], unit, names)
+            a_, b_ = canon(a, unit, names), canon(b, unit, names)
+            less = c0['opcode'] in ('<', '<=')
+            if (a_, b_) == (x_, y_):
+                return '%s(%s, %s)' % ('min' if less else 'max', x_, y_)
+            if (a_, b_) == (y_, x_):
+                return '%s(%s, %s)' % ('max' if less else 'min', x_, y_)
         return '(%s ? %s : %s)' % (canon(c, unit, names), canon(a, unit, names), canon(b, unit, names))
     if k == 'StringLiteral':
         return n.get('value', '""')
@@ -987,6 +996,16 @@ def nf(n, leaf=None):
         c, a, b = n['inner'][:3]
         if int_value(a) == 1 and int_value(b) == 0 and dtype(strip(c)) == 'bool':
             return nf(c, leaf)     # (flag ? 1 : 0) is the flag
+        # (x < y) ? x : y  is min(x, y);  (x < y) ? y : x  is max(x, y)   (any of < <= > >=)
+        c0 = strip(c)
+        if c0 is not None and c0.get('kind') == 'BinaryOperator' and c0.get('opcode') in ('<', '<=', '>', '>='):
+            x_, y_ = nf(c0['inner'][0], leaf), nf(c0['inner'][1], leaf)
+            a_, b_ = nf(a, leaf), nf(b, leaf)
+            less = c0['opcode'] in ('<', '<=')
+            if (a_, b_) == (x_, y_):
+                return '%s(%s)' % ('min' if less else 'max', ', '.join(sorted([x_, y_])))
+            if (a_, b_) == (y_, x_):
+                return '%s(%s)' % ('max' if less else 'min', ', '.join(sorted([x_, y_])))
         return '(%s ? %s : %s)' % (nf(c, leaf), nf(a, leaf), nf(b, leaf))
     if k == 'CXXMemberCallExpr':
         m = strip(n['inner'][0])
